@@ -368,7 +368,13 @@ CLASS_OF_MODEL_ERR = {"ValueNotFound", "OverloadedFunctionAsVariable", "Ambiguou
 def structural(chk, progs):
     """progs: list of (tag, ds, src). Real compiler's structure vs the scope model's."""
     reqs = [{"op": "scope", "f": "dump", "src": src} for (_, _, src) in progs]
-    impl = run_harness(reqs)
+    impl = run_harness(reqs, per_req_timeout=60.0)
+    # a request that ran into the time budget of a busy machine is asked again, alone, with a long budget: only a
+    # compiler that really does not return is a hang
+    for i, r in enumerate(impl):
+        if "hang" in r or "abort" in r:
+            impl[i] = run_harness([reqs[i]], per_req_timeout=600.0)[0]
+            chk.count("struct:retried-after-timeout")
     lines = ["scope compile 200000 " + scope_sexp(ds) for (_, ds, _) in progs]
     model = run_model(lines)
     agree = 0
